@@ -17,7 +17,19 @@ fn break_program(r: &mut Rng, text: &str) -> (String, Vec<String>) {
     let mut lines: Vec<String> = text.lines().map(|s| s.to_owned()).collect();
     let mut tags = Vec::new();
     let start_at = lines.iter().position(|l| l.trim_start().starts_with("start:")).map(|p| p + 1).unwrap_or(lines.len());
-    match r.below(7) {
+    match r.below(8) {
+        7 => {
+            // the file ends in the middle of a statement (the diagnostic lists what could follow),
+            // with undefined labels before it
+            for k in 0..r.urange(0, 2) {
+                let at = r.urange(start_at, lines.len());
+                lines.insert(at, format!("jmp X_{}", k));
+            }
+            lines.push((*r.pick(&["mov ax,", "d_9: dw", "add bx, word", "print mem 5 ->", "call", "mov byte ["])).to_owned());
+            tags.push("ends_mid_statement".to_owned());
+            let t = lines.join("\n");
+            return (if r.chance(50) { t + "\n" } else { t }, tags);
+        }
         5 | 6 => {
             // undefined labels inside macro bodies: every expansion is parsed on its own, so the
             // recorded positions are relative to the expanded text and may coincide
@@ -309,6 +321,17 @@ fn make_env_case(r: &mut Rng, seed: u64, run: u64, stats: &mut Stats) -> Option<
             let l = *r.pick(&["Start:", "START:", "sTART:", "l_1:", "l_2:", "P_0:", "D_0:"]);
             if !lines.iter().any(|x| x.trim() == l) {
                 lines.insert(at, l.to_owned());
+            }
+            // procedures and macros whose names differ only in case from existing ones, with
+            // bodies of their own (defined in front of the entry point)
+            if r.chance(50) {
+                let d = *r.pick(&["def P_0 { add di, 77 }", "def P_1 { sub di, 5 }", "macro M_0() -> add di, 33 <-", "def p_9 { inc di }\ndef P_9 { dec di }"]);
+                let at0 = start_at.saturating_sub(1).min(lines.len());
+                lines.insert(at0, d.to_owned());
+                if d.contains("p_9") {
+                    lines.insert((at0 + 2).min(lines.len()), "call p_9".to_owned());
+                    lines.insert((at0 + 3).min(lines.len()), "print reg".to_owned());
+                }
             }
         }
         let t2 = lines.join("\n");
